@@ -9,6 +9,7 @@ import json, random
 from ..common import Reporter, model_check, emit_graph, expect_violation
 from ..evidence import Evidence
 from .. import replay
+from ..tlc import MachineryError
 
 PROP = "C17"
 RUN_INV = ("ExecutedIsPrefixToFirstFailure", "CapturedExactlyNamedExecuted", "ExitRule", "NoResidue", "FilesAreRequestedAndWritten")
@@ -82,7 +83,13 @@ def run(tier, seed, replay_path):
     else:
         # every command list in the plain form; the other forms of the optional fields / invocation with lists of <= 3 commands
         chosen = short + [p for p in longer if job(p).get("form", "full") == "full" or len(job(p)["cmds"]) <= 3]
+    by_form = {}
+    for p in chosen:
+        by_form[job(p).get("form", "full")] = by_form.get(job(p).get("form", "full"), 0) + 1
+    if by_form.get("env_path", 0) < 5 or by_form.get("full", 0) < 5:
+        raise MachineryError(f"vacuity guard: a form of the job was (almost) never executed: {by_form}")
     stats2, viol2, samples2 = replay.run_paths(g2, chosen, JobRunAdapter, nproc=14)
+    stats2["jobs_by_form"] = by_form
     stats2["jobs_in_model"] = len(paths)
     ev.count(evaluations=stats2["steps"], distinct_nontrivial=stats2["pairs_exercised"], traces=stats2["paths"])
     ev.set(run_replay=stats2, exhaustive=len(chosen) == len(paths))
